@@ -729,6 +729,11 @@ fn collect_free_variables(expr: &SpannedExpr, vars: &mut Vec<String>, bound: &mu
                     RecordKey::Dynamic(expr) | RecordKey::Spread(expr) => {
                         collect_free_variables(expr, vars, bound);
                     }
+                    RecordKey::Shorthand(name) => {
+                        if !bound.contains(name) {
+                            vars.push(name.clone());
+                        }
+                    }
                     _ => {}
                 }
                 if !matches!(entry.key, RecordKey::Shorthand(_) | RecordKey::Spread(_)) {
